@@ -127,10 +127,16 @@ func (in *Interp) invoke(g *Goroutine, fv *FuncV, args []Value, c *callCtx, dest
 	}
 	if intr, ok := intrinsics[name]; ok {
 		c.args = args
+		if in.mergeDepth > 0 && !pureIntrinsic(name) {
+			panic(mergeFail{"impure intrinsic in merged region: " + name})
+		}
 		return intr(in, g, c)
 	}
 	if fn.Blocks == nil {
 		if strings.HasPrefix(fn.Name(), "nondet") || strings.HasPrefix(fn.Name(), "verif") {
+			if in.mergeDepth > 0 {
+				panic(mergeFail{"harness intrinsic in merged region"})
+			}
 			c.args = args
 			return in.harnessIntrinsic(g, fn.Name(), c)
 		}
@@ -312,6 +318,9 @@ func (in *Interp) callBuiltin(g *Goroutine, c *callCtx) (Value, int) {
 	case "cap":
 		switch x := args[0].(type) {
 		case *SliceV:
+			if x.Frozen {
+				panic(engineErr("cap of merged slice view"))
+			}
 			return Const(64, uint64(x.Cap())), irDone
 		case *ChanV:
 			if x.C == nil {
@@ -485,4 +494,9 @@ func (in *Interp) callBuiltin(g *Goroutine, c *callCtx) (Value, int) {
 		return &SliceV{Cells: p.Sl.Cells[:n:n], Len: n}, irDone
 	}
 	panic(engineErr(fmt.Sprintf("unsupported builtin %s(%s)", name, describe(args[0]))))
+}
+
+func pureIntrinsic(name string) bool {
+	return strings.HasPrefix(name, "internal/bytealg.") || strings.HasPrefix(name, "strings.") || strings.HasPrefix(name, "bytes.") ||
+		strings.HasPrefix(name, "internal/abi.") || name == "runtime.KeepAlive" || name == "(*strings.Builder).copyCheck" || name == "errors.Is"
 }
